@@ -179,6 +179,12 @@ GENERATOR_RESTRICTIONS = [
     "generated trees whose reference evaluation raises an ordinary exception (TypeError, ZeroDivisionError, "
     "UndefinedError...) are kept with probability 0.4 only (error outcomes are compared by class name and are less "
     "informative than values); sources longer than 160 characters are discarded",
+    "not generated, because another property owns the obligation that reports it (hunt round b): the filters map / select / reject / "
+    "selectattr / rejectattr feeding sort / min / max / batch / reverse / `in` / `is iterable` in the async environment (C22.async_variant[*], "
+    "C09.variant.result_consumable.*), sum with a str start value (C22.async.do_sum[*].same_as_builtin_sum_of_the_collected_items), string "
+    "literals with a backslash (C14.bounded.unescape), str.format in the sandbox (C02.bounded.sandbox_str_format), names that are not in NFKC "
+    "form (C02.names.identifier_injective), keywords repeated through ** (C02.emit.signature), compile_expression on an async environment "
+    "(only the rendered template is compared there; C02.TemplateExpression.__call__)",
     "each expression is checked on the default environment (compile_expression + rendered template) and on ONE of the "
     "other four environments in rotation (budget: ~1.1 ms per compilation)",
 ]
